@@ -221,6 +221,35 @@ def _menu_paths(vendor, pt, rev, labels, det):
     return [list(p) for p in walked]
 
 
+def _sends_exits(vendor):
+    """the vendor's formatter writes block-exit lines at all (optixtrans has an exit word but a formatter without exits: its shipped
+    rulebook has no nested rules)"""
+    from annet.annlib.tabparser import BlockExitFormatter
+    from vf.model import sut
+    return isinstance(sut.formatter(vendor), BlockExitFormatter)
+
+
+def _stream_context(paths, exitw, det):
+    """block-structured vendors: the device gets the LAST element of every path, one line after another, and keeps its own notion of
+    the block it is in - a block header enters it, the exit word leaves one level.  Before each command the device must stand in the
+    block the command's path names: after p the device is in p (p was a header), p[:-1] (a plain line) or p[:-2] (p was an exit)."""
+    prev = None
+    for q in paths:
+        q = tuple(q)
+        if prev is None:
+            ok = len(q) == 1
+        elif prev[-1] == exitw and len(prev) >= 2:
+            ok = q[:-1] == prev[:-2]
+        else:
+            ok = q[:-1] in (prev, prev[:-1])
+        if not ok:
+            det["paths"] = [list(x) for x in paths]
+            raise Violation("stream-context", "the command %r belongs to the block %r, but after the line before it (%r) the device stands in %s"
+                            % (q[-1], list(q[:-1]), None if prev is None else prev[-1],
+                               "the top level" if prev is None else (list(prev[:-2]) if (prev[-1] == exitw and len(prev) >= 2) else "%r or %r" % (list(prev), list(prev[:-1])))), det)
+        prev = q
+
+
 def _check_annot(case):
     from annet.annlib.netdev.views.hardware import HardwareView
     from annet.annlib.tabparser import parse_to_tree
@@ -295,6 +324,8 @@ def check(case):
             paths = _flat_paths(vendor, pt, ctx, rev, labels, det) if vendor in FLAT else sut.cmd_paths(vendor, pt)
         det["paths"] = paths
         _paths_labels(paths, rev, exitw, labels)
+        if exitw and vendor not in FLAT and vendor not in MENU and _sends_exits(vendor):
+            _stream_context(paths, exitw, det)
         if vendor in MENU:
             # RouterOS sections are menus, not objects that are created and removed, and a removal is spelled as a query
             # ('remove [ find ... ]'): the stream is judged for where each command runs (above), it is not executed on the simulator
